@@ -21,11 +21,63 @@ EXPLANATION = ("Proved: the two primary-response selectors (ResponseStrategyReso
 TRUSTED = ["cattrs decodes conforming bodies into the annotated models (C03/C16, dependency)", "classification of decoding expressions is syntactic"]
 
 
+def _kind_of_media(ct, content):
+    if ct in ("text/event-stream",):
+        return "sse"
+    if ct in ("application/x-ndjson", "application/jsonl"):
+        return "ndjson"
+    if ct == "application/octet-stream":
+        return "bytes"
+    if ct == "application/json" or ct.endswith("+json"):
+        sch = (content[ct] or {}).get("schema") or {}
+        return "other" if (sch.get("type") == "string" and sch.get("format") == "binary") else "json"
+    if ct.startswith("text/"):
+        return "text"
+    return "other"
+
+
+def _multi_content_problems(arm_src, content):
+    """several content types on one response: every declared non-binary content type is decoded by its own kind in a branch selected by the
+    Content-Type header (the last one may be the fallback `else`). Responses that include a binary type are delivered as a byte stream: not judged."""
+    kinds = {ct: _kind_of_media(ct, content) for ct in content}
+    if any(k in ("bytes", "other", "sse", "ndjson") for k in kinds.values()):
+        return None
+    try:
+        tree = ast.parse(arm_src)
+    except SyntaxError:
+        return ["arm does not parse"]
+    branches, fallback = {}, None
+    for node in ast.walk(tree):
+        if isinstance(node, ast.If) and isinstance(node.test, ast.Compare) and isinstance(node.test.left, ast.Name) and node.test.left.id == "content_type":
+            comp = node.test.comparators[0]
+            if isinstance(comp, ast.Constant):
+                branches[comp.value] = _kind_of_arm("\n".join(ast.unparse(x) for x in node.body))
+            if node.orelse and not (len(node.orelse) == 1 and isinstance(node.orelse[0], ast.If)):
+                fallback = _kind_of_arm("\n".join(ast.unparse(x) for x in node.orelse))
+    if not branches:
+        return ["no dispatch on the Content-Type header"]
+    out = []
+    missing = [ct for ct in kinds if ct.lower() not in branches]
+    for ct, k in kinds.items():
+        got = branches.get(ct.lower())
+        if got is None:
+            if len(missing) == 1 and fallback is not None:
+                got = fallback
+            else:
+                out.append(f"{ct}: no branch")
+                continue
+        if got != k:
+            out.append(f"{ct}: declared {k}, decoded as {got}")
+    return out
+
+
 def _expected_kind(resp):
     content = resp.get("content") or {}
     if not content:
         return "none"
     cts = list(content)
+    if len(cts) > 1:
+        return "multi"
     ct = cts[0]
     if ct in ("text/event-stream",):
         return "sse"
@@ -84,6 +136,12 @@ def bounded_case_arms(tier, seed):
                     if code not in arms:
                         failures.append({"id": f"bounded:case-arm:{g.name.split('@')[0]}:{o['method']} {o['path']}:{code}:missing",
                                          "detail": f"{g.name}: no `case {code}:` arm in {em.cls.name}.{em.fn.name}", "input": {"shape": g.name}})
+                        continue
+                    if want == "multi":
+                        probs = _multi_content_problems(arms[code], resp.get("content") or {})
+                        for pr in probs or []:
+                            failures.append({"id": f"bounded:case-arm:{g.name.split('@')[0]}:{o['method']} {o['path']}:{code}:multi-content:{pr.split(':')[0]}",
+                                             "detail": f"{g.name}: {em.cls.name}.{em.fn.name} case {code}: {pr}", "input": {"shape": g.name}})
                         continue
                     got = _kind_of_arm(arms[code])
                     if want in ("json", "none", "text", "bytes", "sse", "ndjson") and got != want:
